@@ -20,6 +20,10 @@ R02.1 spec sets and constants (23 tables/constants) vs ref/spec_sets.json; R02.2
 (37 + 58 + 1 + 11 entries); R02.3 three-way agreement on text-mode elements; R02.4 snapshot of special_tag,
 html_default_scope and the doctype/quirks tables (through normal forms); R02.5 who calls set_quirks_mode; R02.6
 reviewed normal forms of html5ever::tree_builder (113 functions, step = 330 paths) and html5ever::driver.
+R02.8 tag dispatch vs ref/whatwg_dispatch.py (one handling per paragraph of the standard, unlisted names = fresh name, rows distinct);
+R02.9 quirks tables and decision order; R02.10 reset-insertion-mode table; R02.11 rows of all insertion modes (steps and
+conditions, per valuation) vs ref/whatwg_rows.py; R02.12 foreign content rows and foreign element insertion; R02.1 also local tag
+sets and the MathML/SVG members of the scope list and special category.
 """
 ASSUMPTIONS = ["ref/spec_sets.json restates the standard correctly (written from memory; only sets I am certain of)"]
 TB = "html_tree_builder"
